@@ -145,6 +145,7 @@ type Exec struct {
 	cellTypes    map[string]types.Type // shared cells (escape.go): key -> type
 	succNamed    map[string]bool       // keys mentioned in succeeded("...") clauses of this unit
 	callsNamed   map[string]bool       // keys mentioned in calls("...") clauses of this unit
+	lastretNamed map[string]bool       // keys mentioned in lastret("...") clauses of this unit
 }
 
 type privBox struct{ heap, ref string }
